@@ -3,6 +3,7 @@ package main
 // Counterexample replay: model → in-package Go test → `go test -overlay`.
 
 import (
+	"math/big"
 	"bytes"
 	"context"
 	"encoding/json"
@@ -164,6 +165,116 @@ type replayBuilder struct {
 	pkg     *types.Package
 	notes   []string
 	stubN   int
+	atomAsked bool
+	lenTerms  []string // length terms of the planned slices (to ask for small candidate inputs)
+}
+
+// wantAtomLiterals asks for the order values of the string literals of an
+// atom-mode query (once).
+func (r *replayBuilder) wantAtomLiterals() {
+	if r.atomAsked {
+		return
+	}
+	r.atomAsked = true
+	r.want(Term{"(sord sempty)", "Int"})
+	for _, name := range r.x.te.atomConsts {
+		r.want(Term{"(sord " + name + ")", "Int"})
+	}
+}
+
+// atomString turns the model's order value of an atom-mode string into a
+// concrete string that compares with the query's literals (and with the
+// other concretised strings) the way the order values do: a literal's value
+// gives that literal; any other value gives <greatest smaller literal> +
+// "\x01" + its value in fixed-width decimal.
+func (r *replayBuilder) atomString(v string) string {
+	n, ok := modelRat(v)
+	if !ok {
+		return ""
+	}
+	e, _ := modelRat(r.vals["(sord sempty)"])
+	if e == nil {
+		e = new(big.Rat)
+	}
+	if n.Cmp(e) <= 0 {
+		return ""
+	}
+	// rank of the value among all order values of the model that were asked for
+	var all []*big.Rat
+	for k, val := range r.vals {
+		if strings.HasPrefix(k, "(sord ") {
+			if q, ok := modelRat(val); ok {
+				all = append(all, q)
+			}
+		}
+	}
+	sort.Slice(all, func(i, j int) bool { return all[i].Cmp(all[j]) < 0 })
+	rank := 0
+	for i, q := range all {
+		if i > 0 && q.Cmp(all[i-1]) == 0 {
+			continue
+		}
+		if q.Cmp(n) < 0 {
+			rank++
+		}
+	}
+	type lit struct {
+		s string
+		n *big.Rat
+	}
+	var lits []lit
+	for s, name := range r.x.te.atomConsts {
+		if ln, ok := modelRat(r.vals["(sord "+name+")"]); ok {
+			lits = append(lits, lit{s, ln})
+		}
+	}
+	sort.Slice(lits, func(i, j int) bool { return lits[i].n.Cmp(lits[j].n) < 0 })
+	below := ""
+	above, hasAbove := "", false
+	for _, l := range lits {
+		switch c := l.n.Cmp(n); {
+		case c == 0:
+			return l.s
+		case c < 0:
+			below = l.s
+		case !hasAbove:
+			above, hasAbove = l.s, true
+		}
+	}
+	out := below + "\x01" + fmt.Sprintf("%06d", rank)
+	if hasAbove && !(out < above) {
+		r.notes = append(r.notes, "an abstract string could not be concretised between two literals")
+	}
+	return out
+}
+
+// modelRat parses an SMT-LIB numeral, decimal or (/ a b), possibly negated.
+func modelRat(v string) (*big.Rat, bool) {
+	v = strings.TrimSpace(v)
+	if v == "" {
+		return nil, false
+	}
+	if strings.HasPrefix(v, "(- ") && strings.HasSuffix(v, ")") {
+		q, ok := modelRat(v[3 : len(v)-1])
+		if !ok {
+			return nil, false
+		}
+		return q.Neg(q), true
+	}
+	if strings.HasPrefix(v, "(/ ") && strings.HasSuffix(v, ")") {
+		fs := strings.Fields(v[3 : len(v)-1])
+		if len(fs) != 2 {
+			return nil, false
+		}
+		a, ok1 := modelRat(fs[0])
+		b, ok2 := modelRat(fs[1])
+		if !ok1 || !ok2 || b.Sign() == 0 {
+			return nil, false
+		}
+		return a.Quo(a, b), true
+	}
+	q, ok := new(big.Rat).SetString(v)
+	return q, ok
 }
 
 func (r *replayBuilder) want(t Term) string {
@@ -195,6 +306,20 @@ func (r *replayBuilder) plan(T types.Type, t Term, depth int) func() string {
 		k := r.want(t)
 		switch {
 		case u.Info()&types.IsString != 0:
+			if t.Sort == "Str" {
+				// atom-mode strings have no concrete value in the model, only
+				// an order embedding (sord): concretise by rank among the
+				// literals of the query (atomString)
+				ks := r.want(Term{"(sord " + t.S + ")", "Int"})
+				r.wantAtomLiterals()
+				return func() string {
+					lit := strconv.Quote(r.atomString(r.vals[ks]))
+					if _, named := T.(*types.Named); named {
+						return r.typeStr(T) + "(" + lit + ")"
+					}
+					return lit
+				}
+			}
 			return func() string {
 				s, _ := modelString(r.vals[k])
 				lit := strconv.Quote(s)
@@ -317,6 +442,7 @@ func (r *replayBuilder) plan(T types.Type, t Term, depth int) func() string {
 	case *types.Slice:
 		x.te.SortOf(T)
 		kl := r.want(sliceLen(t))
+		r.lenTerms = append(r.lenTerms, sliceLen(t).S)
 		kn := r.want(sliceNil(t))
 		var gens []func() string
 		for i := 0; i < 6; i++ {
@@ -479,6 +605,94 @@ func tryReplay(L *Loaded, id string, g *Group, o *Oblig) *ReplayResult {
 }
 
 func tryModelReplay(L *Loaded, id string, g *Group, o *Oblig) *ReplayResult {
+	return tryModelReplayOpt(L, id, g, o, false)
+}
+
+// tryRelaxedReplay: for an obligation the solvers could not decide, look for
+// a candidate input in a model of the query without its quantified
+// assertions, and run it on the real code with the precondition re-checked
+// there. Only a reproduced failure is reported.
+func tryRelaxedReplay(L *Loaded, id string, g *Group) (*Oblig, *ReplayResult) {
+	if g.Class != "SAFE" && g.Class != "POST" {
+		return nil, nil
+	}
+	var z *solverSpec
+	for i := range solvers {
+		if solvers[i].name == "z3-new" {
+			z = &solvers[i]
+		}
+	}
+	if z == nil {
+		return nil, nil
+	}
+	tried := 0
+	for _, o := range g.Instances {
+		if o.Result == nil || o.Result.Answer == "unsat" || o.Result.Answer == "sat" || o.x == nil {
+			continue
+		}
+		if tried >= 3 {
+			break
+		}
+		tried++
+		q := relaxQuery(o.Query)
+		// prefer small inputs: the slices reachable from the parameters hold at most 4 elements
+		if fn := o.x.fn; fn != nil && len(o.x.entryParams) >= len(fn.Params) {
+			if sp := L.spkgs[FuncPkgPath(fn)]; sp != nil {
+				pre := &replayBuilder{x: o.x, vals: map[string]string{}, imports: map[string]string{}, pkg: sp.Pkg}
+				for i, p := range fn.Params {
+					pre.plan(p.Type(), o.x.entryParams[i].T, 0)
+				}
+				for _, lt := range pre.lenTerms {
+					q += "\n(assert (<= " + lt + " 4))"
+				}
+				// ground instances of the atom-string axioms for the inputs' strings
+				var strs []string
+				for _, t := range pre.terms {
+					if strings.HasPrefix(t, "(sord ") && strings.HasSuffix(t, ")") {
+						strs = append(strs, t[len("(sord "):len(t)-1])
+					}
+				}
+				var sb strings.Builder
+				for i, a := range strs {
+					if a != "sempty" {
+						fmt.Fprintf(&sb, "\n(assert (<= (sord sempty) (sord %s)))", a)
+					}
+					if len(strs) > 120 {
+						continue
+					}
+					for _, b := range strs[i+1:] {
+						fmt.Fprintf(&sb, "\n(assert (=> (= (sord %s) (sord %s)) (= %s %s)))", a, b, a, b)
+					}
+				}
+				q += sb.String()
+			}
+		}
+		res := runSolver(*z, q, 5*time.Second, true)
+		if os.Getenv("GOVC_DEBUG_RELAX") != "" {
+			os.WriteFile("/tmp/relaxed.smt2", []byte(q), 0o644)
+			os.WriteFile("/tmp/unrelaxed.smt2", []byte(o.Query), 0o644)
+			fmt.Fprintf(os.Stderr, "relaxed %s: %s\n", o.Name, res.Answer)
+		}
+		if res.Answer != "sat" {
+			continue
+		}
+		res.Solver = "z3-new"
+		shadow := *o
+		shadow.Query = q
+		shadow.Result = &res
+		rep := tryModelReplayOpt(L, id, g, &shadow, true)
+		if os.Getenv("GOVC_DEBUG_RELAX") != "" && rep != nil {
+			fmt.Fprintf(os.Stderr, "relaxed replay %s: %s\n%s\n%s\n", o.Name, rep.Summary, rep.TestSource, rep.Output)
+		}
+		if rep != nil && rep.Reproduced {
+			rep.Summary = "candidate input from the query without its quantified assertions; precondition re-checked on the real code; " + rep.Summary
+			return &shadow, rep
+		}
+	}
+	return nil, nil
+}
+
+func tryModelReplayOpt(L *Loaded, id string, g *Group, o *Oblig, strict bool) *ReplayResult {
 	if o == nil || o.Result == nil || o.Result.Answer != "sat" {
 		return nil
 	}
@@ -508,6 +722,13 @@ func tryModelReplay(L *Loaded, id string, g *Group, o *Oblig) *ReplayResult {
 	if len(rb.vals) == 0 && len(rb.terms) > 0 {
 		return &ReplayResult{Summary: "could not obtain model values for the inputs"}
 	}
+	if os.Getenv("GOVC_DEBUG_RELAX") != "" {
+		for k, v := range rb.vals {
+			if strings.Contains(k, "sord") {
+				fmt.Fprintf(os.Stderr, "  val %s = %s\n", k, v)
+			}
+		}
+	}
 	var decls []string
 	var argNames []string
 	inputs := map[string]string{}
@@ -529,7 +750,18 @@ func tryModelReplay(L *Loaded, id string, g *Group, o *Oblig) *ReplayResult {
 	}
 	mode := "panic"
 	var body strings.Builder
-	switch o.Class {
+	cls := o.Class
+	if strict {
+		cls = "strict"
+	}
+	switch cls {
+	case "strict":
+		src, ok := compileReplay(x, o, rb, decls, call, true)
+		if !ok {
+			return &ReplayResult{Summary: "precondition or clause not executable; no replay of a candidate input (" + strings.Join(rb.notes, "; ") + ")", Inputs: inputs}
+		}
+		body.WriteString(src)
+		mode = "candidate input, precondition re-checked"
 	case "SAFE":
 		body.WriteString("\tdefer func() {\n\t\tif r := recover(); r != nil {\n\t\t\tfmt.Printf(\"REPLAY-PANIC: %v\\n\", r)\n\t\t\treturn\n\t\t}\n\t\tfmt.Println(\"REPLAY-NO-FAILURE\")\n\t}()\n")
 		for _, d := range decls {
@@ -565,10 +797,10 @@ func tryModelReplay(L *Loaded, id string, g *Group, o *Oblig) *ReplayResult {
 	out, err := runOverlayTest(L, FuncPkgPath(fn), src)
 	res := &ReplayResult{TestSource: src, Output: out, Inputs: inputs, Pkg: FuncPkgPath(fn), Mode: mode}
 	switch {
-	case strings.Contains(out, "REPLAY-PANIC:"):
+	case strings.Contains(out, "REPLAY-PANIC:") && (!strict || strings.Contains(out, "REPLAY-PRE-OK")):
 		res.Reproduced = true
 		res.Summary = "reproduced on the real code: " + firstLineContaining(out, "REPLAY-PANIC:")
-	case strings.Contains(out, "REPLAY-POST-FALSE"):
+	case strings.Contains(out, "REPLAY-POST-FALSE") && (!strict || strings.Contains(out, "REPLAY-PRE-OK")):
 		res.Reproduced = true
 		res.Summary = "reproduced on the real code: " + firstLineContaining(out, "REPLAY-POST-FALSE")
 	case strings.Contains(out, "panic:") && o.Class == "SAFE":
